@@ -111,7 +111,7 @@ FORMS_N = {
 }
 FAIL_R = "{S}(tr('f', 1.5))"
 SPECIALS = {"recurse": "recurse", "call_next": "call_next", "self-name": "fself", "renamed": "rec"}
-KINDS = ["function", "closure", "pos-default", "kw-default", "method"]
+KINDS = ["function", "closure", "pos-default", "kw-default", "method", "lambda-default"]
 
 FIXED = '''
 def leaf_s(x: str):
@@ -158,6 +158,10 @@ def make_source(context, form, special, kind):
         src = FIXED + "def tested(x: int, y: tuple = DEF1):\n    tr('d', y)\n" + indent(body, 4) + "\n"
     elif kind == "kw-default":
         src = FIXED + "def tested(x: int, *, kd: tuple = DEF2):\n    tr('kd', kd)\n" + indent(body, 4) + "\n"
+    elif kind == "lambda-default":
+        # a lambda and a generator expression in the signature: their code objects precede the body's
+        src = (FIXED + "def tested(x: int, y: tuple = tuple(i for i in (4, 5)), *, g=(lambda: 41)):\n    tr('g', g())\n    tr('y', y)\n"
+               + indent(body, 4) + "\n")
     else:
         src = FIXED_M + "def tested(self, x: int):\n    tr('self', self.tag)\n" + indent(body, 4) + "\n"
     return src
@@ -393,8 +397,9 @@ def run_case(context, form, special, kind, acc):
             report("behaviour-differs:" + "+".join(keys), {"instance": i, "original": {k: r.get(k) for k in keys}, "rewritten": {k: l.get(k) for k in keys}})
         # defaults / kwdefaults / closure cells are carried over unchanged
         rt, lt = rtested[i], ltested[i]
-        if rt.__defaults__ != lt.__defaults__ or rt.__kwdefaults__ != lt.__kwdefaults__:
-            report("defaults-differ", {})
+        if _plain(rt.__defaults__) != _plain(lt.__defaults__) or _plain(rt.__kwdefaults__) != _plain(lt.__kwdefaults__):
+            report("defaults-differ", {"original": [_plain(rt.__defaults__), _plain(rt.__kwdefaults__)],
+                                       "rewritten": [_plain(lt.__defaults__), _plain(lt.__kwdefaults__)]})
     return found
 
 
@@ -446,9 +451,9 @@ def main(tier):
              "comprehension position, lambda, nested def and their defaults, conditional and boolean operators incl. short-circuit, "
              "f-string, subscript / attribute base, walrus, try/finally, try/except around a failing call, generator, for, with, "
              "decorator, raise after the call; thorough: class body, and depth 2 = each of 12 expression contexts around the call inside every statement context, for recurse / call_next on three kinds) x 11 call forms (positional, two, keyword, starred, "
-             "double-starred, nested in the first / a later / a keyword argument / both) x 4 special names (recurse, call_next, the function's own name, a renamed import) x 5 "
+             "double-starred, nested in the first / a later / a keyword argument / both) x 4 special names (recurse, call_next, the function's own name, a renamed import) x 6 "
              "function kinds (module-level, closure instantiated twice, positional defaults, keyword-only defaults, method with "
-             "self); each built twice from one source text; compared: acceptance, result, exception, order and multiplicity of "
+             "self, lambda / generator expression in the signature); each built twice from one source text; compared: acceptance, result, exception, order and multiplicity of "
              "argument evaluation (tracer log), generator laziness, defaults, file and line of the raising frame",
         assumptions=["the reference side binds the special names to ordinary Python callables with the documented meaning and never "
                      "goes through the library's dispatcher"],
